@@ -38,6 +38,13 @@ os.environ["TZ"] = "UTC"
 _real_time.tzset()
 
 
+def set_tz(tz):
+    """The local time zone of the simulated deployment (a POSIX TZ string such as 'CET-1': no tzdata
+    needed).  Everything UTC-based must be unaffected by it; it is part of the scenario."""
+    os.environ["TZ"] = tz
+    _real_time.tzset()
+
+
 class _Ctx(object):
     """What the seams read.  One world at a time per process."""
     world = None
@@ -116,11 +123,12 @@ class SimDatetime(_REAL_DATETIME):
         n = cls.utcnow()
         if tz is not None:
             return n.replace(tzinfo=_real_datetime_mod.timezone.utc).astimezone(tz)
-        return n
+        lt = _real_time.localtime(CTX.now())        # naive local time, as the real datetime.now()
+        return cls(lt.tm_year, lt.tm_mon, lt.tm_mday, lt.tm_hour, lt.tm_min, min(lt.tm_sec, 59), n.microsecond)
 
     @classmethod
     def today(cls):
-        return cls.utcnow()
+        return cls.now()
 
 
 class _DatetimeModuleProxy(object):
